@@ -1,9 +1,26 @@
-(* C19 — configuration store (preliminary) *)
+(* C19 — Configuration store is a last-writer-wins nested map; refresh restores defaults.
+   ONLY the property theorems (closed by `exact`), their assumption reports and non-vacuity
+   examples.  Model: model/C19_Model.v = quantem.core.config with the repairs
+   fixes/C19-context-manager.diff, C19-defaults-spelling.diff (both committed in /repo),
+   C19-exit-canonical-names.diff and C19-cpu-substring.diff (proposed).
+
+   Vocabulary (model/C19_Model.v): a store is (conf, dflts); `good c` = every dict of the tree c
+   spells each key once and purely (no dict holds both the '-' and the '_' spelling of a
+   name); `pure k` = k does not mix '-' and '_'; `norm k` = the spelling-insensitive name;
+   `same_path p q` = equal up to spelling; `diverge p q` = neither path is a prefix of the
+   other (up to spelling).  `validate` is validate_device, an arbitrary function in every
+   theorem (the harness instantiates it with the answer of this host, validate_nogpu).
+   Keys are quantified over pure spellings (key_ok / op_ok); mixed spellings such as "a_b-c"
+   are distinct keys in the code and in the model and are outside the claim. *)
 From QV.lib Require Import Prelude.
 From QV.model Require Import C19_Model.
-From QV.proof Require Import C19_Proofs_Keys C19_Proofs_Set.
+From QV.proof Require Import C19_Proofs_Keys C19_Proofs_Set C19_Proofs_Update C19_Proofs_Ctx
+  C19_Proofs_Hist C19_Proofs_Last.
 From Coq Require Import String Ascii.
 
+(* ------------------------------------------------------------------ get after set *)
+(* get k' (set k v s) = v for every spelling k' of k (dotted keys, nested creation); for the
+   key "device" v' is the normalised device, otherwise v' = v *)
 Theorem C19_get_set :
   forall validate key key' v v' d d' r,
     good (Node d) -> key_ok key -> key_ok key' -> same_path (path_of key) (path_of key') ->
@@ -12,3 +29,348 @@ Theorem C19_get_set :
     C19_Model.get key' d' = inr v'.
 Proof. exact get_set. Qed.
 Print Assumptions C19_get_set.
+
+(* ------------------------------------------------------------------ one spelling per dict *)
+(* reachable-state invariant over ALL histories of set (mapping / keyword / dotted forms),
+   update_defaults, refresh and with-blocks (bodies included, calls that raise half-way
+   included): the configuration and every stored default are `good` *)
+Theorem C19_one_spelling_inv :
+  forall validate ops,
+    Forall op_ok ops ->
+    good (Node (conf (run validate ops empty_store))) /\
+    Forall (fun d => good (Node d)) (dflts (run validate ops empty_store)).
+Proof. exact one_spelling_inv. Qed.
+Print Assumptions C19_one_spelling_inv.
+
+(* what `good` says about a dict: two stored keys with the same name are the same key, and
+   the same holds below every entry *)
+Theorem C19_good_means_one_spelling :
+  forall d, good (Node d) ->
+    (forall k1 k2, In k1 (map fst d) -> In k2 (map fst d) -> norm k1 = norm k2 -> k1 = k2) /\
+    (forall k c, lookup k d = Some c -> good c).
+Proof.
+  exact (fun d G => conj (fun k1 k2 => good_norm_inj d k1 k2 (good_keys_of d G))
+                         (fun k c => good_lookup d k c G)).
+Qed.
+Print Assumptions C19_good_means_one_spelling.
+
+(* ------------------------------------------------------------------ siblings *)
+(* a dotted set leaves every key that is neither above nor below the written one untouched *)
+Theorem C19_set_preserves_siblings :
+  forall validate key key' v d d' r,
+    good (Node d) -> key_ok key -> key_ok key' -> diverge (path_of key) (path_of key') ->
+    set_item validate key v d = inr (d', r) ->
+    C19_Model.get key' d' = C19_Model.get key' d.
+Proof. exact set_preserves_siblings. Qed.
+Print Assumptions C19_set_preserves_siblings.
+
+(* nested updates (update with any priority: the engine of merge, update_defaults and
+   refresh) merge without dropping siblings: an entry that is not on, above or below a path
+   written by `new` keeps its value — also when the call raises half-way *)
+Theorem C19_update_preserves_siblings :
+  forall validate new, good new -> forall prio old dv old' e q x,
+    good (Node old) -> pure_path q -> nodev q ->
+    (forall w, In w (wpaths new) -> diverge w q) ->
+    update_cfg validate prio new old dv = (old', e) ->
+    get_path q (Node old) = inr x -> get_path q (Node old') = inr x.
+Proof. exact update_siblings. Qed.
+Print Assumptions C19_update_preserves_siblings.
+
+(* ------------------------------------------------------------------ last writer wins *)
+(* inside one call (mapping items then keyword items, in order): the last item that writes a
+   key wins *)
+Theorem C19_get_last_writer_in_call :
+  forall validate pre key v post key' v' d d' recs,
+    good (Node d) -> items_ok (pre ++ (key, v) :: post) -> key_ok key' ->
+    same_path (path_of key) (path_of key') ->
+    check_key_val validate key v = inr v' ->
+    (forall key2 v2, In (key2, v2) post -> diverge (path_of key2) (path_of key')) ->
+    set_items validate (pre ++ (key, v) :: post) d [] = (d', recs, None) ->
+    C19_Model.get key' d' = inr v'.
+Proof. exact get_last_writer. Qed.
+Print Assumptions C19_get_last_writer_in_call.
+
+(* over histories: after ANY history `pre`, a set of key k followed by any statements that do
+   not write k (sets of other keys, update_defaults of other keys; successful or raising)
+   still reads the value set, under either spelling.  The writers of k are therefore exactly:
+   a later set of k (C19_get_set), an update_defaults carrying k (which wins only under
+   C19_update_defaults_semantics) and refresh (C19_refresh_is_merge_defaults). *)
+Theorem C19_get_last_writer :
+  forall validate pre key v v' d2 r key' post,
+    Forall op_ok pre ->
+    let s1 := run validate pre empty_store in
+    key_ok key -> good v -> key_ok key' -> nodev (path_of key') ->
+    same_path (path_of key) (path_of key') ->
+    check_key_val validate key v = inr v' ->
+    set_item validate key v (conf s1) = inr (d2, r) ->
+    Forall (no_write key') post ->
+    C19_Model.get key' (conf (run_s validate post {| conf := d2; dflts := dflts s1 |})) = inr v'.
+Proof. exact get_last_writer_hist. Qed.
+Print Assumptions C19_get_last_writer.
+
+(* ------------------------------------------------------------------ refresh / merge *)
+(* refresh ignores (clears) the previous configuration, keeps the defaults, and without yaml
+   files yields exactly the merge of the defaults *)
+Theorem C19_refresh_is_merge_defaults :
+  forall validate yaml s,
+    (forall c, refresh validate yaml {| conf := c; dflts := dflts s |} = refresh validate yaml s) /\
+    dflts (fst (refresh validate yaml s)) = dflts s /\
+    refresh validate [] s =
+      ({| conf := fst (merge validate (dflts s)); dflts := dflts s |}, snd (merge validate (dflts s))).
+Proof. exact refresh_is_merge_defaults. Qed.
+Print Assumptions C19_refresh_is_merge_defaults.
+
+(* ... and that merge is last-writer-wins: a leaf of some default reads back (either
+   spelling) unless a LATER default writes on, above or below it *)
+Theorem C19_merge_last_writer :
+  forall validate ds1 d ds2 m q q' x,
+    Forall (fun d => good (Node d)) (ds1 ++ d :: ds2) ->
+    pure_path q -> pure_path q' -> nodev q -> same_path q q' -> q <> [] ->
+    get_path q (Node d) = inr (Leaf x) ->
+    (forall d2, In d2 ds2 -> forall w, In w (wp_items d2) -> diverge w q') ->
+    merge validate (ds1 ++ d :: ds2) = (m, None) ->
+    get_path q' (Node m) = inr (Leaf x).
+Proof. exact merge_last_writer. Qed.
+Print Assumptions C19_merge_last_writer.
+
+(* ... and nothing else: a name carried by no default is absent *)
+Theorem C19_merge_absent :
+  forall validate ds m e qk,
+    (forall d, In d ds -> forall k v, In (k, v) d -> norm k <> norm qk) ->
+    merge validate ds = (m, e) -> lookup (canon qk m) m = None.
+Proof. exact (fun validate ds m e qk H M => merge_absent validate ds [] m e qk H M). Qed.
+Print Assumptions C19_merge_absent.
+
+(* ------------------------------------------------------------------ update_defaults *)
+(* update_defaults(new) appends (the validated) new to the defaults; a top-level scalar key
+   of it takes the new value iff it was absent or still equal to what the accumulated
+   defaults gave it; a value the user changed is kept.  `find k d` = lookup (canon k d) d is
+   the entry `get` sees for the component k. *)
+Theorem C19_update_defaults_semantics :
+  forall validate new s s',
+    (good (Node (conf s)) /\ Forall (fun d => good (Node d)) (dflts s)) ->
+    good (Node new) -> update_defaults validate new s = (s', None) ->
+    exists new' cur,
+      check_items validate new = inr new' /\ merge validate (dflts s) = (cur, None) /\
+      dflts s' = dflts s ++ [new'] /\
+      forall k x k2, In (k, Leaf x) new -> k <> "device"%string -> pure k2 = true -> norm k2 = norm k ->
+        find k2 (conf s') =
+        match find k2 (conf s) with
+        | None => Some (Leaf x)
+        | Some ov => match find k2 cur with
+                     | Some dvv => if cfg_eqb dvv ov then Some (Leaf x) else Some ov
+                     | None => Some ov
+                     end
+        end.
+Proof. exact update_defaults_rule. Qed.
+Print Assumptions C19_update_defaults_semantics.
+
+(* priority "new" of update: every leaf of `new` reads back afterwards (either spelling) *)
+Theorem C19_update_new_get :
+  forall validate new, good new -> forall old dv old' q q' x,
+    good (Node old) -> pure_path q -> pure_path q' -> nodev q -> same_path q q' -> q <> [] ->
+    get_path q new = inr (Leaf x) ->
+    update_cfg validate PNew new old dv = (old', None) ->
+    get_path q' (Node old') = inr (Leaf x).
+Proof. exact update_new_get. Qed.
+Print Assumptions C19_update_new_get.
+
+(* ------------------------------------------------------------------ devices *)
+(* a request that is not a cpu request and that validate_device rejects: set({"device": v}),
+   set(device=v) [= set_device(v)] raise and change nothing; inside a larger call the items
+   before it are applied and nothing after; update_defaults raises before touching the store
+   or the defaults *)
+Theorem C19_device_rejected_unchanged :
+  forall validate v e,
+    cpu_request v = false -> validate v = inl e ->
+    (forall s, step_s validate (SSet (Some (Node [("device"%string, v)])) []) s = (s, Some e)) /\
+    (forall s, step_s validate (SSet None [("device"%string, v)]) s = (s, Some e)) /\
+    (forall l1 l2 d recs,
+        set_items validate (l1 ++ ("device"%string, v) :: l2) d recs =
+        match set_items validate l1 d recs with (d1, r1, None) => (d1, r1, Some e) | x => x end) /\
+    (forall new s, In ("device"%string, v) new -> exists e', update_defaults validate new s = (s, Some e')).
+Proof. exact device_rejected_unchanged. Qed.
+Print Assumptions C19_device_rejected_unchanged.
+
+(* reachable-state invariant, for every history whatsoever: a device stored as a scalar is
+   "cpu" or a string validate_device returned *)
+Theorem C19_stored_device_valid :
+  forall validate ops x,
+    lookup "device" (conf (run validate ops empty_store)) = Some (Leaf x) ->
+    exists s, x = JStr s /\ (s = "cpu"%string \/ exists v, validate v = inr s).
+Proof. exact stored_device_valid. Qed.
+Print Assumptions C19_stored_device_valid.
+
+(* on this host (no CUDA, no MPS) exactly the cpu requests are accepted: None, "cpu" in any
+   case, "cpu:<digits>" *)
+Theorem C19_nogpu_accepts_only_cpu :
+  forall v s, check_dev validate_nogpu "device" v = inr (Some s) -> s = "cpu"%string.
+Proof.
+  intros v s. unfold check_dev. cbn [String.eqb Ascii.eqb Bool.eqb]. destruct (cpu_request v); [congruence|].
+  destruct v as [[| |z|t]|l]; cbn [validate_nogpu]; try congruence.
+  - destruct (z <? 0)%Z; congruence.
+  - destruct (contains "cuda" (lower t)); [congruence|]. destruct (contains "gpu" (lower t)); [congruence|].
+    destruct (String.eqb (lower t) "mps"); [congruence|]. destruct (String.eqb (lower t) "cpu"); congruence.
+Qed.
+Print Assumptions C19_nogpu_accepts_only_cpu.
+
+(* ------------------------------------------------------------------ context manager *)
+(* exit (enter s kvs) = s, exactly (same entries, same order): any number of items in mapping
+   and keyword form, dotted keys, nested inserts, keys that existed or not, the same key
+   several times — no hypothesis on the store or on the arguments *)
+Theorem C19_ctx_restores :
+  forall validate arg kw d d1 recs,
+    set_call validate arg kw d = (d1, recs, None) -> exit_call recs d1 = (d, None).
+Proof. exact ctx_restores. Qed.
+Print Assumptions C19_ctx_restores.
+
+(* `with set(...): pass` and `with set(...): raise` leave the store as it was *)
+Theorem C19_with_restores :
+  forall validate arg kw s d1 recs,
+    set_call validate arg kw (conf s) = (d1, recs, None) ->
+    step validate (With arg kw []) s = (s, None) /\
+    step validate (WithX arg kw []) s = (s, None) /\
+    step validate (WithX arg kw [SSet (Some (Leaf JNone)) []]) s = (s, Some TypeErr).
+Proof. exact with_pass_restores. Qed.
+Print Assumptions C19_with_restores.
+
+(* ------------------------------------------------------------------ non-vacuity *)
+Ltac nodup_tac := repeat (constructor; [cbn; intuition discriminate|]); constructor.
+Ltac good_tac :=
+  first [ apply good_leaf
+        | constructor;
+          [ repeat (constructor; [reflexivity|]); constructor
+          | cbn; nodup_tac
+          | repeat (constructor; [cbn [snd]; good_tac|]); constructor ] ].
+Ltac pp_tac := vm_compute; repeat constructor.
+
+Local Open Scope string_scope.
+
+Definition ex_d : items :=
+  [("dtype_real", Leaf (JStr "float32")); ("viz", Node [("real-space-units", Leaf (JStr "A")); ("cmap", Leaf (JStr "gray"))])]%string.
+
+Example C19_nonvacuous_good : good (Node ex_d).
+Proof. unfold ex_d. good_tac. Qed.
+
+(* set under one spelling, get under the other, nested *)
+Example C19_nonvacuous_get_set :
+  exists d' r, set_item validate_nogpu "viz.real_space_units" (Leaf (JStr "nm")) ex_d = inr (d', r) /\
+               C19_Model.get "viz.real-space-units" d' = inr (Leaf (JStr "nm")) /\
+               C19_Model.get "viz.cmap" d' = inr (Leaf (JStr "gray")).
+Proof.
+  eexists. eexists. split; [vm_compute; reflexivity|]. split.
+  - eapply (C19_get_set validate_nogpu "viz.real_space_units" "viz.real-space-units");
+      [exact C19_nonvacuous_good | pp_tac | pp_tac | reflexivity | reflexivity | vm_compute; reflexivity].
+  - etransitivity;
+      [eapply (C19_set_preserves_siblings validate_nogpu "viz.real_space_units" "viz.cmap");
+         [exact C19_nonvacuous_good | pp_tac | pp_tac | | vm_compute; reflexivity] | reflexivity].
+    vm_compute. right. split; [reflexivity|]. left. discriminate.
+Qed.
+
+Definition ex_ops : list op :=
+  [Do (SUpd [("viz", Node [("real-space-units", Leaf (JStr "A"))]); ("dtype_real", Leaf (JStr "float32"))]);
+   Do (SSet (Some (Node [("viz.real_space_units", Leaf (JStr "nm"))])) [("dtype-real", Leaf (JStr "float64"))]);
+   WithX (Some (Node [("new_sec.k-1", Leaf (JInt 1))])) []
+         [SRefresh []; SUpd [("new-sec", Node [("k_1", Leaf (JInt 5))])]; SSet (Some (Leaf JNone)) []];
+   Do (SSet None [("device", Leaf (JStr "cuda:0"))])]%string.
+
+Example C19_nonvacuous_ops_ok : Forall op_ok ex_ops.
+Proof.
+  unfold ex_ops. repeat (apply Forall_cons); try apply Forall_nil; cbn [op_ok sop_ok arg_ok].
+  - good_tac.
+  - split; (constructor; [split; [pp_tac | good_tac]|constructor]).
+  - split; [constructor; [split; [pp_tac | good_tac]|constructor]|]. split; [constructor|].
+    repeat (apply Forall_cons); try apply Forall_nil; cbn [sop_ok arg_ok goods kw_items map].
+    + good_tac.
+    + split; [exact I | constructor].
+  - split; [exact I|]. constructor; [split; [pp_tac | good_tac]|constructor].
+Qed.
+
+(* the history runs, the with-block's body rebuilt "new_sec" under the other spelling and
+   __exit__ still found (and removed) it; the rejected device left "device" absent *)
+Example C19_nonvacuous_history :
+  conf (run validate_nogpu ex_ops empty_store) =
+    [("viz", Node [("real-space-units", Leaf (JStr "A"))]); ("dtype_real", Leaf (JStr "float32"))]%string /\
+  good (Node (conf (run validate_nogpu ex_ops empty_store))).
+Proof.
+  split; [vm_compute; reflexivity|]. exact (proj1 (C19_one_spelling_inv validate_nogpu ex_ops C19_nonvacuous_ops_ok)).
+Qed.
+
+(* the unrepaired __exit__ (recorded spelling used as is) would have left both spellings of
+   "new_sec" in that history: restoring ("new_sec") := absent pops nothing, ("new_sec","k-1") is
+   a no-op, and for a `replace` record d["new_sec"] = old is added next to "new-sec" *)
+Example C19_exit_needs_canonical_names :
+  let d := [("new-sec", Leaf (JInt 5))]%string in
+  assign "new_sec" (Leaf (JInt 1)) d = [("new-sec", Leaf (JInt 5)); ("new_sec", Leaf (JInt 1))]%string /\
+  restore_replace ["new_sec"%string] (Leaf (JInt 1)) d = inr [("new-sec", Leaf (JInt 1))]%string.
+Proof. split; vm_compute; reflexivity. Qed.
+
+(* last writer over a history *)
+Example C19_nonvacuous_last_writer :
+  C19_Model.get "viz.real-space-units"
+    (conf (run_s validate_nogpu
+             [SUpd [("viz", Node [("cmap", Leaf (JStr "magma"))])]; SSet None [("device", Leaf (JStr "tpu"))];
+              SSet (Some (Node [("viz.cmap", Leaf (JInt 3)); ("alpha", Leaf JNone)])) []]%string
+             {| conf := fst (match set_item validate_nogpu "viz.real_space_units" (Leaf (JStr "nm"))
+                                    (conf (run validate_nogpu ex_ops empty_store)) with
+                             | inr x => x | inl _ => ([], ([], None)) end);
+                dflts := dflts (run validate_nogpu ex_ops empty_store) |}))
+  = inr (Leaf (JStr "nm")).
+Proof.
+  eapply (C19_get_last_writer validate_nogpu ex_ops "viz.real_space_units" (Leaf (JStr "nm")));
+    [exact C19_nonvacuous_ops_ok | pp_tac | good_tac | pp_tac | vm_compute; repeat constructor; discriminate
+    | reflexivity | reflexivity | vm_compute; reflexivity |].
+  repeat (apply Forall_cons); try apply Forall_nil; cbn [no_write arg_ok set_args kw_items map app].
+  - split; [good_tac|]. intros w [<-|[]]. vm_compute. right. split; [reflexivity|]. left. discriminate.
+  - split; [exact I|]. split; [constructor; [split; [pp_tac | good_tac]|constructor]|].
+    intros key v [E|[]]. inversion E; subst. vm_compute. left. discriminate.
+  - split; [repeat (constructor; [split; [pp_tac | good_tac]|]); constructor|]. split; [constructor|].
+    intros key v [E|[E|[]]]; inversion E; subst; vm_compute.
+    + right. split; [reflexivity|]. left. discriminate.
+    + left. discriminate.
+Qed.
+
+(* refresh = merge of the defaults, later defaults win, other spelling merges into the entry *)
+Example C19_nonvacuous_merge :
+  merge validate_nogpu [[("a-b", Leaf (JInt 1)); ("s", Node [("x", Leaf (JInt 1))])];
+                        [("a_b", Leaf (JInt 2)); ("s", Node [("y", Leaf (JInt 3))])]]%string
+  = ([("a-b", Leaf (JInt 2)); ("s", Node [("x", Leaf (JInt 1)); ("y", Leaf (JInt 3))])]%string, None).
+Proof. vm_compute. reflexivity. Qed.
+
+(* the three cases of the update_defaults rule: still the default -> follows; changed by the
+   user -> kept; absent -> added *)
+Example C19_nonvacuous_update_defaults :
+  let s := {| conf := [("a", Leaf (JInt 1)); ("b", Leaf (JInt 7))]; dflts := [[("a", Leaf (JInt 1)); ("b", Leaf (JInt 2))]] |}%string in
+  fst (update_defaults validate_nogpu [("a", Leaf (JInt 10)); ("b", Leaf (JInt 20)); ("c", Leaf (JInt 30))]%string s) =
+  {| conf := [("a", Leaf (JInt 10)); ("b", Leaf (JInt 7)); ("c", Leaf (JInt 30))];
+     dflts := [[("a", Leaf (JInt 1)); ("b", Leaf (JInt 2))]; [("a", Leaf (JInt 10)); ("b", Leaf (JInt 20)); ("c", Leaf (JInt 30))]] |}%string.
+Proof. vm_compute. reflexivity. Qed.
+
+(* devices on this host: "cuda:0", "tpu", "xcpu", an index are rejected; "cpu", "CPU", "cpu:0",
+   None are served as "cpu" *)
+Example C19_nonvacuous_device :
+  map (fun v => check_key_val validate_nogpu "device" v)
+      [Leaf (JStr "cuda:0"); Leaf (JStr "tpu"); Leaf (JStr "xcpu"); Leaf (JInt 0); Leaf (JStr "cpu:");
+       Leaf (JStr "cpu"); Leaf (JStr "CPU"); Leaf (JStr "cpu:0"); Leaf JNone]%string =
+  [inl RuntimeErr; inl ValueErr; inl ValueErr; inl RuntimeErr; inl ValueErr;
+   inr (Leaf (JStr "cpu")); inr (Leaf (JStr "cpu")); inr (Leaf (JStr "cpu")); inr (Leaf (JStr "cpu"))]%string.
+Proof. vm_compute. reflexivity. Qed.
+
+Example C19_nonvacuous_device_rejected :
+  forall s, step_s validate_nogpu (SSet None [("device"%string, Leaf (JStr "xcpu"))]) s = (s, Some ValueErr).
+Proof. exact (proj1 (proj2 (C19_device_rejected_unchanged validate_nogpu (Leaf (JStr "xcpu")) ValueErr eq_refl eq_refl))). Qed.
+
+(* context manager: mapping + keyword form, the same key twice (second time under the other
+   spelling), a nested insert below a fresh parent, an existing key *)
+Definition ex_arg : option cfg :=
+  Some (Node [("viz.cmap", Leaf (JInt 1)); ("fresh.sub.k", Leaf (JInt 2)); ("dtype-real", Leaf JNone)]).
+Definition ex_kw : items := [("viz__cmap", Leaf (JInt 3)); ("fresh__other", Leaf (JInt 4))].
+
+Example C19_nonvacuous_ctx :
+  exists d1 recs,
+    set_call validate_nogpu ex_arg ex_kw ex_d = (d1, recs, None) /\
+    List.length recs = 5 /\ d1 <> ex_d /\ exit_call recs d1 = (ex_d, None).
+Proof.
+  eexists. eexists. split; [vm_compute; reflexivity|]. split; [reflexivity|]. split; [discriminate|].
+  apply (C19_ctx_restores validate_nogpu ex_arg ex_kw ex_d). vm_compute. reflexivity.
+Qed.
